@@ -317,7 +317,7 @@ pub fn run(ctx: &Ctx) {
     ctx.assume("'the optimizer encountered a failure' = cache absent when fit starts, or a derivative call failed, or a parameter application other than the final re-application failed (derived from the call log; the optimizer queries residuals after every trial step)");
     *ctx.exhaustive.lock().unwrap() = Some(true);
     let thorough = ctx.tier == Tier::Thorough;
-    let n = ctx.tier.pick(8, 48);
+    let n = ctx.tier.pick(16, 64);
     ctx.run_cases("fault-enumeration", n, ctx.tier.pick(60.0, 600.0), |r, c, o| {
         if c % 16 >= 12 {
             scenario_case::<f32>(r, c, o, thorough)
